@@ -19,23 +19,37 @@
      maxHeaders  limit for the number of field lines             (max_headers)
      untilEof    response mode: a body without framing runs to the end of the stream
      withBody    response mode: FALSE = response to HEAD (no body whatever the fields say)
+     mutant      "" everywhere except in the self-test ("noLimit" / "noCLTE" remove a mechanism so
+                 that the model's invariants can be shown to notice)
+     devHeadSkip FALSE = strict reading.  TRUE = read HEAD requests the way the unchanged parser does
+                 (body ignored whatever Content-Length / Transfer-Encoding say); the trace spec
+                 uses this second reading only to NAME that deviation when the strict reading
+                 does not explain an execution
 
    Result state (record s):
      phase   start | fields | body | csize | cdata | ccrlf | trailers | eofbody
              | tunnel | closed | rejected | undecided
      msgs    completed messages;  cur = message whose head is complete but whose
              body is still being read (delivered = TRUE) or whose head is being read
-     reason  why the reader rejected;  soft = rules that fired on the way and that
-             are NOT part of the strict reading:
-                kind "alt"  permitted alternative (RFC SHOULD/MAY or a design decision
-                            documented in THREAT_MODEL.md): accepting and rejecting
-                            are both fine;
-                kind "dev"  known deviation of the implementation from the strict
-                            reading: the strict verdict is REJECT at this point; the
-                            reader nevertheless continues the way the implementation
-                            does, so that a trace which is accepted only thanks to the
-                            deviation can be named exactly (clause = soft name).
-     over / between / tight / nearCount   facts about the size limits (C10, C03)
+     reason  why the reader rejected (rejPhase = phase it was in, rejectAt = offset)
+     soft    rules that fired on the way and that are NOT part of the strict reading:
+                kind "alt"  permitted alternative (RFC SHOULD/MAY, a design decision
+                            documented in THREAT_MODEL.md or pinned by the test-suite):
+                            accepting and rejecting are both fine;
+                kind "dev"  known deviation of the implementation: the strict verdict is
+                            REJECT at this point; the reader nevertheless continues the
+                            way the implementation does, so that an execution which is
+                            accepted only thanks to the deviation can be named exactly
+                            (clause = soft name) and everything after it is still checked.
+     over / between / tight / nearCount   facts about the size limits (C10, C03):
+                over      a construct exceeds its limit (MUST be rejected)
+                between   a start / field line whose length lies between max_line_size and
+                          max_field_size (only there does it matter which one is applied)
+                tight     a line exactly as long as its limit
+                nearCount field count within 3 of max_headers (the parser counts the start
+                          line and the empty line too: stricter, permitted)
+     undecided  the reference declines to decide (status line with bytes that str.split() may
+                treat as Unicode white space): only the messages before that point are compared
 
    Rule comments cite the RFC section and, where the rule mirrors a deliberate
    choice of aiohttp, the code location in aiohttp/http_parser.py.               *)
